@@ -500,3 +500,26 @@ pub fn u_get_max_key<'a>(a: S<'a, KV>) {
         .all_ticks()
         .embedded_output("out");
 }
+
+// ------------------------------------------------------------------ monotone / bounded-value (C33)
+
+pub fn m_value_counts<'a>(a: S<'a, KV>) {
+    let tick = a.location().tick();
+    a.into_keyed()
+        .value_counts()
+        .snapshot(&tick, nondet!(/** observation only */))
+        .entries()
+        .all_ticks()
+        .assume_ordering::<TotalOrder>(nondet!(/** observation only */))
+        .embedded_output("out");
+}
+
+/// a BoundedValue keyed singleton has no `snapshot`: its entries are a safe top-level stream
+/// (every entry appears once, because its value can never change)
+pub fn m_keyed_first<'a>(a: S<'a, KV>) {
+    a.into_keyed()
+        .first()
+        .entries()
+        .assume_ordering::<TotalOrder>(nondet!(/** observation only */))
+        .embedded_output("out");
+}
